@@ -250,3 +250,58 @@ var vC13Features = []string{
 	"{a + b * c}", "x.y.z ", ":=", "a:=1 ", "~@x ", "^(a ~b)", "`raw string`", "// c\n1 ", "/* b */ 2 ", "0x1F 0o17 0b101 5ULL ",
 	"a: b ", "#x ", "$y ", "1e5 ", ".5 ", "-Inf ", "'a' ", "true false nil ",
 }
+
+// vOffsets: how a piece of text is read does not depend on where in its text
+// it stands.  After a prefix of complete atoms ("7 7 7 ...", ending in a
+// blank) of every length up to past two turns of the lexer's look-back
+// memory, the text T - every short byte string, or one of the feature texts
+// - yields the prefix's atoms followed by exactly what T yields on its own.
+func vOffsets(label string, texts []string, symbolic bool) {
+	vFormatOpaque(true)
+	env := vEnvs(1)[0]
+	noff := 24
+	if vTier() == 1 {
+		noff = 44
+	}
+	off := vChoice("offset", noff)
+	prefix := ""
+	for len(prefix)+2 <= off {
+		prefix += "7 "
+	}
+	if len(prefix) < off {
+		prefix += " "
+	}
+	nsevens := off / 2
+	var txt string
+	if !symbolic {
+		txt = texts[vChoice("text", len(texts))]
+	} else if k := vChoice("text", 1+len(texts)); k == 0 {
+		n := 1 + vChoice("len", vC13Len())
+		txt = vString("t", n)
+	} else {
+		txt = texts[k-1]
+	}
+	alone, errA, pA := vParse(env, txt)
+	placed, errB, pB := vParse(env, prefix+txt)
+	vAssert(pA == pB, label+"-same-panic-behaviour")
+	if pA || pB {
+		return
+	}
+	vAssert(vErrKind(errA) == vErrKind(errB), label+"-same-error-kind-at-every-offset")
+	if errA != nil || errB != nil {
+		vReach(label + ":error")
+		return
+	}
+	vAssert(len(placed) == nsevens+len(alone), label+"-same-number-of-expressions-at-every-offset")
+	if len(placed) != nsevens+len(alone) {
+		return
+	}
+	for i := 0; i < nsevens; i++ {
+		iv, isI := placed[i].(*SexpInt)
+		vAssert(isI && iv.Val == 7, label+"-prefix-atoms-intact")
+	}
+	vAssert(vSexpListEq(placed[nsevens:], alone), label+"-same-expressions-at-every-offset")
+	vReach(label)
+}
+
+func vh_C13_offsets() { vOffsets("offsets", vC13Features, true) }
